@@ -45,7 +45,7 @@ BagSeq(b) == LET RECURSIVE go(_, _)
                  go(c, acc) == IF c > 64 THEN acc
                                ELSE go(c + 1, IF c \in DOMAIN b THEN acc \o [k \in 1..b[c] |-> c] ELSE acc)
              IN go(1, <<>>)
-ObsJ(o) == [complete |-> o.complete, clients |-> BagSeq(o.clients)]
+ObsJ(o) == [complete |-> o.complete, clients |-> o.clients]
 ActJ(a) == IF a.a = "merge" THEN [a EXCEPT !.obs = ObsJ(a.obs), !.prop = ObsJ(a.prop)] ELSE a
 PartJ(p) == [bits |-> BagSeq(BagOf({b + 1 : b \in p.bits})), cl |-> BagSeq(BagOf(p.cl)), main |-> p.main]
 InstJ(x) == [v |-> x.v, n |-> x.n, parts |-> [p \in 1..Len(x.parts) |-> PartJ(x.parts[p])]]
